@@ -105,7 +105,11 @@ def r2(ctx):
     elif isinstance(idx, Poly) or isinstance(idx, (Sym, Idx, App)):
         # np.array(E) + shift, or E itself when shift == 0
         atoms = idx.atoms() if isinstance(idx, Poly) else [idx]
-        arrs = [a for a in atoms if (isinstance(a, App) and a.fn in ("numpy.array", "numpy.asarray") and a.args) or isinstance(a, (Sym, Idx))]
+        # an index array built from a possibly empty list must be given an integer dtype (numpy.array([]) is float64 and
+        # cannot index: the single-series case)
+        def _int_array(a):
+            return isinstance(a, App) and a.fn in ("numpy.array", "numpy.asarray") and a.args and str(a.kwarg("dtype")) in ("builtins.int", "numpy.int64", "numpy.intp", "numpy.int_")
+        arrs = [a for a in atoms if _int_array(a) or isinstance(a, (Sym, Idx))]
         if len(arrs) == 1:
             a = arrs[0]
             E = a.args[0] if isinstance(a, App) else a
@@ -236,3 +240,10 @@ def r5(ctx):
 def r6(ctx):
     from .c10 import stack_obligations
     stack_obligations(ctx)
+
+
+@rule("C07", "R7", "FLOW", "joint and single-series front ends pad alike: each series gets pad_missing_labels(split[k], W)")
+def r7(ctx):
+    from . import c04
+    c04.r4(ctx)
+    c04.r1(ctx)
